@@ -41,6 +41,14 @@ theorem C20_handlers_locked :
       | none => false) = true := by
   decide +kernel
 
+/-- regenerated: every acquisition of a mutex while another one is (or, through any caller, may be) held
+respects one global lock order — sessionsMu before ConfigMu before lastProcessedMu, messagesMu before
+cacheMu, restoreMu outermost.  A function that takes two of them in the opposite order (as ThrottleUntil,
+ExpireSessions and the status page did with ConfigMu and sessionsMu: the network-wide deadlock repaired in
+/repo 34426db) makes this fail.  With a global order no cycle of waiting threads can form. -/
+theorem C20_lock_order :
+    lockOrder.all (fun e => decide (lockRank e.1 < lockRank e.2.1)) = true := by decide +kernel
+
 /-- the trace-model half, restated here so that the axiom audit of this module covers it: under a
 lock discipline, two conflicting accesses of different threads are always separated by a release of
 the guard by the first thread and a later acquisition by the second (they are ordered by
